@@ -102,6 +102,7 @@ def _cases(rng, n):
     _cases_t9(rng, n, reqs, want)  # --- T9
     _cases_t15(rng, n, reqs, want)  # --- T15
     _cases_t16(rng, n, reqs, want)  # --- T16
+    _cases_t18(rng, n, reqs, want)  # --- T18
     # --- T11: `sorted(xs)` of ints (duplicates, negatives, already sorted / reversed inputs)
     for _ in range(n // 2):
         xs = [rng.randrange(-9, 10) for _ in range(rng.randrange(0, 9))]
@@ -246,6 +247,57 @@ def _cases_t16(rng, n, reqs, want):
             "add": mat(eq + sc, R), "div": mat(sc / k, R), "sub": [R(t) for t in (U - V).tolist()], "dot": R(U.dot(V)),
             "matvec": [R(t) for t in sq.dot(V).tolist()]}))
 # --- end T16
+
+
+# --- T18: the prelude functions of OQ/Exec/PyT18.lean (ops `t18_*` of the driver)
+def _cases_t18(rng, n, reqs, want):
+    """--- T18: `set(xs)` / `x in s` / `s == t` for objects with their own `__hash__` (v // 4) and a NON-transitive `__eq__` (|v - w| <= 1),
+    the non-negativity check on the keys of a dict handed to `PauliTerm`, `sorted` of (index, letter) tuples (taken from a frozenset),
+    `functools.reduce` without initial value, `int.bit_length`.  Expected values come from CPython itself."""
+    import functools
+    m = max(n // 3, 40)
+
+    class E:
+        def __init__(self, v):
+            self.v = v
+
+        def __hash__(self):
+            return self.v // 4
+
+        def __eq__(self, other):
+            return abs(self.v - other.v) <= 1
+
+    for _ in range(m):
+        xs = [rng.randrange(1, 20) for _ in range(rng.randrange(0, 8))]      # (non-negative: CPython replaces the hash value -1 by -2)
+        u = rng.random()
+        ys = rng.sample(xs, len(xs)) if u < 0.35 else ([v + rng.choice([0, 0, 1, -1]) for v in xs] if u < 0.7 else
+                                                      [rng.randrange(1, 20) for _ in range(rng.randrange(0, 8))])
+        A, B = set(E(v) for v in xs), set(E(v) for v in ys)
+        # the elements a set keeps depend on the insertion order only: rebuild it in list order
+        kept = []
+        for v in xs:
+            if not any(E(w).__hash__() == E(v).__hash__() and E(w) == E(v) for w in kept):
+                kept.append(v)
+        assert sorted(e.v for e in A) == sorted(kept), "CPython keeps other elements than first-come"
+        reqs.append(("t18_set", {"xs": xs, "ys": ys}))
+        want.append(("raw", {"set": kept, "eq": A == B, "mem": [E(v) in A for v in ys]}))
+    for _ in range(m):
+        d = {rng.randrange(-2 if rng.random() < 0.3 else 0, 9): rng.choice(["X", "Y", "Z", "I"]) for _ in range(rng.randrange(0, 5))}
+        reqs.append(("t18_keys", {"d": [[k, v] for k, v in d.items()]}))
+        want.append(("raw", {"ok": [[k, v] for k, v in d.items()]} if all(k >= 0 for k in d) else {"err": "value"}))
+        d2 = {abs(k): v for k, v in d.items()}
+        reqs.append(("t18_sorted", {"d": [[k, v] for k, v in d2.items()]}))
+        want.append(("raw", [[k, v] for k, v in sorted(frozenset(d2.items()))]))
+        xs = [rng.randrange(-9, 10) for _ in range(rng.randrange(0, 5))]
+        reqs.append(("t18_reduce", {"xs": xs}))
+        try:
+            want.append(("raw", {"ok": functools.reduce(lambda a, b: 3 * a - b, xs)}))
+        except TypeError:
+            want.append(("raw", {"err": "type"}))
+    for k in [0, 1, 2, 3, 4, 7, 8, 255, 256, 2 ** 40, 2 ** 40 - 1, -1, -8, -9] + [rng.randrange(0, 2 ** 20) for _ in range(m)]:
+        reqs.append(("t18_bits", {"n": common.rat(k)}))
+        want.append(("raw", k.bit_length()))
+# --- end T18
 
 
 def _cases_t2(rng, n, reqs, want):
@@ -633,7 +685,7 @@ def _cases_t15(rng, n, reqs, want):
                 "arrayrows": exc(arrayrows, lambda v: v)}))
 # --- end T15
 
-_STRUCTURED = ("t2_", "t4_", "t14_", "t7_", "t9_", "t15_", "t16_")  # prelude ops whose answers are structured (compared after normalising ints)
+_STRUCTURED = ("t18_", "t2_", "t4_", "t14_", "t7_", "t9_", "t15_", "t16_")  # prelude ops whose answers are structured (compared after normalising ints)
 
 
 def run(seed=0, n=120):
